@@ -54,7 +54,11 @@ func c10Wrappers(c *Ctx, a *sketchAnchors, rule string, part string) {
 			skipOK: func(p *Path) bool {
 				set, ok := p.Classes["count"]
 				return ok && set&^(1<<uint(classOfPoint(0))) == 0
-			}, skipWhy: "weight is exactly 0"})
+			}, skipWhy: "weight is exactly 0",
+			mustSkip: func(p *Path) bool {
+				set, ok := p.Classes["count"]
+				return !ok || set.has(classOfPoint(0))
+			}, mustSkipWhy: "a value added with weight exactly 0 leaves the statistics (min/max included) alone"})
 		c.R.floor(rule, "exact-variant AddWithCount wrapper paths", n, 2)
 		return
 	}
